@@ -52,10 +52,21 @@ def gen_project(rnd, idx):
         pre = rnd.sample(OTHER_ATTRS, rnd.randint(0, 2))
         post = rnd.sample(OTHER_ATTRS, rnd.randint(0, 1))
         doc = rnd.choice([None, "does a thing", "#[tauri::command] is mentioned in this doc"])
-        src = rg.command_src(name, params, ret, is_async, atext, vis, pre_attrs=pre, post_attrs=post, doc=doc)
-        layout = ("channels-only" if params and all(t.startswith("Channel") or t in ("AppHandle", "tauri::Window") for (_, t) in params) and any(t.startswith("Channel") for (_, t) in params)
+        # generic commands: over the runtime (plugin / library code), over a lifetime, with the bound in a where clause
+        gen, where = "", ""
+        gk = rnd.random()
+        if gk < 0.12:
+            gen, params = "<R: tauri::Runtime>", [("handle", "tauri::AppHandle<R>")] + list(params)
+        elif gk < 0.2:
+            gen, where, params = "<R>", "R: tauri::Runtime", list(params) + [("win", "tauri::WebviewWindow<R>")]
+        elif gk < 0.28:
+            gen, params = "<'a>", [("db", "tauri::State<'a, Db>")] + list(params)
+        elif gk < 0.33:
+            gen, params = "<'a, R: tauri::Runtime>", [("handle", "&'a tauri::AppHandle<R>")] + list(params)
+        src = rg.command_src(name, params, ret, is_async, atext, vis, pre_attrs=pre, post_attrs=post, doc=doc, generics=gen, where=where)
+        layout = ("channels-only" if params and all(t.startswith("Channel") or t in ("AppHandle", "tauri::Window") or t.startswith(("tauri::AppHandle<", "tauri::WebviewWindow<", "tauri::State<", "&'a tauri::AppHandle<")) for (_, t) in params) and any(t.startswith("Channel") for (_, t) in params)
                   else "mixed" if any(t.startswith("Channel") for (_, t) in params) else "none" if not params else "plain")
-        return name, src, {"attr": akey, "vis": vis.strip() or "private", "async": is_async, "ret": rshape, "pre": len(pre), "post": len(post), "layout": layout}
+        return name, src, {"attr": akey, "vis": vis.strip() or "private", "async": is_async, "ret": rshape, "pre": len(pre), "post": len(post), "layout": layout + ("+generic" + gen.replace(" ", "") if gen else "")}
 
     def decoy_items():
         out = []
